@@ -3,6 +3,7 @@ package main
 import (
 	"fmt"
 	"go/types"
+	"path/filepath"
 	"regexp"
 	"sort"
 	"strconv"
@@ -216,7 +217,7 @@ func init() {
 	// ---------------- os / filepath / glob on the VFS ----------------
 	reg("os.Stat", func(ex *Exec, _ *frame, _ *ssa.Function, a []Value) Value {
 		ex.used("os.Stat -> virtual file system")
-		p := ex.concStr(a[0], "os.Stat path")
+		p := filepath.Clean(ex.concStr(a[0], "os.Stat path")) // the OS resolves "." and ".." segments
 		if f, ok := ex.vfs.files[p]; ok {
 			sz := f.size
 			if sz < 0 {
@@ -231,7 +232,7 @@ func init() {
 	})
 	reg("os.ReadFile", func(ex *Exec, _ *frame, _ *ssa.Function, a []Value) Value {
 		ex.used("os.ReadFile -> virtual file system")
-		p := ex.concStr(a[0], "os.ReadFile path")
+		p := filepath.Clean(ex.concStr(a[0], "os.ReadFile path"))
 		if f, ok := ex.vfs.files[p]; ok {
 			bs := ex.strBytes(f.content)
 			out := make([]Value, len(bs))
